@@ -337,8 +337,8 @@ def import_into(ctx, rule, prefix='C14:'):
     sub.rep = Report('C14', ctx.tier)
     run(sub)
     for o in sub.rep.obligations:
-        if o['rule'] == 'R4':
-            continue
+        if o['rule'] == 'R4' or o['instance'].startswith(('center-', 'corners-', 'anchor:area')):
+            continue      # area / centre / corners do not influence images or placements
         if o['ok']:
             ctx.rep.ok(rule, prefix + o['instance'], o['construct'], o['why'])
         else:
